@@ -244,6 +244,39 @@ Theorem C03_parrots_full : forall p swaps exts', In p Parrots.all ->
 Proof. exact PresetOkC.parrot_matches. Qed.
 Print Assumptions C03_parrots_full.
 
+(* ======================================================================================================
+   Item (c) of the "PARTIAL" note, soundness: the shuffle-aware oracle (shuffle_match: re-[arrange] the TABLE entry's
+   extension list after the wire order, keep GREASE / padding / pre_shared_key in their slots, then compare in sequence)
+   accepts every hello built from a rearrangement ShuffleChromeTLSExtensions can produce (C03_shuffle) - it raises no false
+   alarm on a shuffling parrot, also when the SNI extension is left out (no DNS name) or padding / pre_shared_key are absent.
+   (Proofs/ShuffleOracleP.v: shuffle_match_sound for every list whose non-fixed entries form one block; ShuffleOracleC.v: the
+   table satisfies that and the id conditions, by computation.) Completeness (the oracle accepts ONLY such rearrangements) is
+   not proved; C03_ex_oracle_rejects shows it is not vacuous.
+   ====================================================================================================== *)
+From UV Require Proofs.ShuffleOracleP Proofs.ShuffleOracleC.
+
+Theorem C03_shuffle_oracle_sound : forall c l l' ws,
+  ShuffleOracleP.contigb l = true -> NoDup (map sext_id (filter ShuffleOracleP.nonfixed l)) ->
+  (forall s, In s (filter ShuffleOracleP.nonfixed l) -> ShuffleOracleP.fixed_id (sext_id s) = false) ->
+  Permutation l l' -> ShuffleOracleP.kept l l' ->
+  nodup_N (filter (fun i => negb (Grease.is_grease i)) (map fst ws)) = true ->
+  nodup_N (map sext_id (filter ShuffleOracleP.nonfixed l)) = true ->
+  seq_match c (expect_exts 0 l') ws = true -> shuffle_match c l ws = true.
+Proof. exact ShuffleOracleP.shuffle_match_sound. Qed.
+Print Assumptions C03_shuffle_oracle_sound.
+
+(* every shipped parrot, every swap list, every Config in the class, every randomness: the oracle in SHUFFLE mode, applied
+   with the table entry itself, accepts the parsed bytes of the hello *)
+Theorem C03_parrots_shuffle_oracle : forall p swaps exts', In p Parrots.all ->
+  shuffle fixedb swaps (sp_exts (p_spec p)) = Ok exts' ->
+  forall c fr h es, PresetOkC.parrot_class c ->
+  apply_preset (with_exts (p_spec p) exts') c fr = Ok (h, es) ->
+  exists raw a, build (with_exts (p_spec p) exts') c fr = Ok raw /\ parse_hello raw = Some a
+    /\ ast_matches_specb a {| p_name := p_name p; p_spec := p_spec p; p_shuffles := true |} c = true.
+Proof. exact ShuffleOracleC.parrot_shuffle_oracle. Qed.
+Print Assumptions C03_parrots_shuffle_oracle.
+
 (* imported last, for the driver's closure scan only (lib/vcheck.py follows "Require Import" lines); nothing follows *)
 From UV Require Import Proofs.ComposeP Proofs.ComposeC03.
 From UV Require Import Model.PresetOk Proofs.PresetOkP Proofs.PresetOkS Proofs.PresetOkT Proofs.PresetOkC.
+From UV Require Import Model.ParrotNeg Proofs.ParrotNegS Proofs.ShuffleOracleP Proofs.ShuffleOracleC.
